@@ -27,7 +27,7 @@ from genjax.adev import Dual, expectation
 
 PROP = "C11"
 ENUM = ["flip_enum", "flip_enum_parallel", "cat_enum_parallel"]
-REPARAM = ["normal_reparam", "uniform_reparam", "mvn_reparam", "mvn_diag_reparam"]
+REPARAM = ["normal_reparam", "uniform_reparam", "mvn_reparam", "mvn_diag_reparam", "normal_reparam_vec", "uniform_reparam_vec"]
 SCORE = ["flip_mvd", "flip_reinforce", "normal_reinforce", "geometric_reinforce", "mvn_reinforce"]
 ALL = ENUM + REPARAM + SCORE
 
@@ -62,6 +62,11 @@ def site_params(xp, name, acc, t1):
         return (xp.stack([0.0 * acc, acc, -acc + 0.3 * t1]),)
     if name in ("normal_reparam", "normal_reinforce"):
         return (acc, 0.5 + 0.3 * sg(xp, t1))
+    if name == "normal_reparam_vec":
+        # scalar location, vector scale: the per-coordinate noises must be independent
+        return (acc, xp.stack([0.5 + 0.3 * sg(xp, t1), 0.8 + 0.0 * t1]))
+    if name == "uniform_reparam_vec":
+        return (acc - 1.0, xp.stack([acc + 1.0 + 0.5 * sg(xp, t1), acc + 2.0 + 0.0 * t1]))
     if name in ("uniform_reparam", "uniform_reinforce"):
         return (acc - 1.0, acc + 1.0 + 0.5 * sg(xp, t1))
     if name == "geometric_reinforce":
@@ -93,6 +98,7 @@ def prim(name):
     return {"flip_enum": adev.flip_enum, "flip_enum_parallel": adev.flip_enum_parallel, "flip_mvd": adev.flip_mvd,
             "flip_reinforce": adev.flip_reinforce, "cat_enum_parallel": adev.categorical_enum_parallel,
             "normal_reparam": adev.normal_reparam, "normal_reinforce": adev.normal_reinforce,
+            "normal_reparam_vec": adev.normal_reparam, "uniform_reparam_vec": adev.uniform_reparam,
             "uniform_reparam": adev.uniform_reparam, "uniform_reinforce": adev.uniform_reinforce,
             "geometric_reinforce": adev.geometric_reinforce, "mvn_reparam": adev.multivariate_normal_reparam,
             "mvn_reinforce": adev.multivariate_normal_reinforce, "mvn_diag_reparam": adev.multivariate_normal_diag_reparam}[name]
@@ -182,6 +188,15 @@ def ref_expectation(case, theta, n=24):
             for x, w in zip(xs, ws):
                 v = float(p[0] + (p[1] - p[0]) * x)
                 tot += rec(i + 1, fold(np, acc, v, t1), vals + [v], weight * w)
+        elif name in ("normal_reparam_vec", "uniform_reparam_vec"):
+            xs, ws = gh(max(8, n // 2)) if name.startswith("normal") else gl(max(8, n // 2))
+            for (x1, w1), (x2, w2) in itertools.product(zip(xs, ws), repeat=2):
+                z = np.array([x1, x2])
+                if name.startswith("normal"):
+                    v = np.asarray(p[0]) + np.asarray(p[1]) * z
+                else:
+                    v = np.asarray(p[0]) + (np.asarray(p[1]) - np.asarray(p[0])) * z
+                tot += rec(i + 1, fold(np, acc, v, t1), vals + [v], weight * w1 * w2)
         elif name == "geometric_reinforce":
             q = float(p[0])  # success probability (geometric counts failures before the first success)
             for kk in range(0, 160):
